@@ -103,6 +103,15 @@ def firstDiff (impl model : List String) : List String :=
     | some k => [s!"step#{i} {fieldNames.getD k "?"} impl={((a.getD k "").take 160).toString} model={((b.getD k "").take 160).toString}"]
     | none => [s!"step#{i} differs"]
 
+/-- a file command whose path the virtual file system of the harness does not describe (directories,
+names longer than the real file system accepts): such scripts are not compared -/
+def foreignPath (ln : Bytes) : Bool :=
+  let (_, rest) := exLoc ln
+  let (cmd, rest) := exCmd rest
+  let c := cmd.filter (· != 33)
+  (c == strOf "w" || c == strOf "wq" || c == strOf "x" || c == strOf "e" || c == strOf "ew" || c == strOf "r" || c == strOf "xa" || c == strOf "wa")
+    && (rest.contains 47 || rest.length > 200)
+
 def judge (_mode : Nat) (kv : KV) : Verdict :=
   let files := parseFiles (kv.get "files")
   let opens := if kv.get "open" == "-" then [] else ((kv.get "open").splitOn ",").map Ex.strOf
@@ -114,6 +123,8 @@ def judge (_mode : Nat) (kv : KV) : Verdict :=
   let m := { m0 with steps := m0.steps.map strip }
   let _ := m.items
   let crashed := kv.get "crash" == "1"
+  let foreign := script.any (fun l => foreignPath l || (l.any (· == 124) && l.any (· == 47) && (l.any (· == 119) || l.any (· == 101))))
+  let m := if foreign then { m with unmodelled := true } else m
   let d := if m.unmodelled then []
     else if crashed then (if m.trapped then [] else ["impl crashed but the model does not trap"])
     else firstDiff impl m.steps
